@@ -71,13 +71,7 @@ func (n String) String() string {
 }
 
 func (n String) Number() float64 {
-	ret, err := strconv.ParseFloat(string(n), 64)
-
-	if err != nil {
-		return math.NaN()
-	}
-
-	return ret
+	return getStringNumber(string(n))
 }
 
 func (n String) Bool() bool {
@@ -102,14 +96,72 @@ func (n NodeSet) Bool() bool {
 	return len(n) > 0
 }
 
+// getStringNumber converts a string to a number as the XPath 1.0 number()
+// function does: optional whitespace, an optional minus sign, a Number
+// (digits with an optional fraction, or '.' followed by digits) and optional
+// whitespace.  Any other string, including exponents, a leading '+', hex
+// digits and the words "Infinity" and "NaN", is NaN.
 func getStringNumber(str string) float64 {
+	str = trimXmlSpace(str)
+
+	if !isNumberSyntax(str) {
+		return math.NaN()
+	}
+
 	ret, err := strconv.ParseFloat(str, 64)
 
-	if err != nil {
+	// A numeral too large for a double is reported as a range error together
+	// with the infinity of the right sign, which is the IEEE 754 result.
+	if err != nil && !math.IsInf(ret, 0) {
 		return math.NaN()
 	}
 
 	return ret
+}
+
+func isXmlSpace(c byte) bool {
+	return c == ' ' || c == '\t' || c == '\r' || c == '\n'
+}
+
+// trimXmlSpace strips leading and trailing XML whitespace (#x20, #x9, #xD, #xA).
+func trimXmlSpace(s string) string {
+	start := 0
+	end := len(s)
+
+	for start < end && isXmlSpace(s[start]) {
+		start++
+	}
+
+	for end > start && isXmlSpace(s[end-1]) {
+		end--
+	}
+
+	return s[start:end]
+}
+
+// isNumberSyntax reports whether s is an optional '-' followed by an XPath
+// 1.0 Number: at least one digit and at most one '.'.
+func isNumberSyntax(s string) bool {
+	i := 0
+
+	if len(s) > 0 && s[0] == '-' {
+		i = 1
+	}
+
+	digits := 0
+	dots := 0
+
+	for ; i < len(s); i++ {
+		if s[i] >= '0' && s[i] <= '9' {
+			digits++
+		} else if s[i] == '.' {
+			dots++
+		} else {
+			return false
+		}
+	}
+
+	return digits > 0 && dots <= 1
 }
 
 func GetCursorString(c store.Cursor) string {
